@@ -564,7 +564,9 @@ def project_remove2(res, case_spec):
                 fresh.discard(who)
                 s.update(nr="getdents", d1=e.get("fd_id", 0), body=names, flag="names")
             else:
-                s.update(nr="getdents", d1=e.get("fd_id", 0), body=names, flag="more" if names else "end")
+                if names:
+                    return None       # a listing that needs several getdents batches: outside the model's one-batch scan
+                s.update(nr="getdents", d1=e.get("fd_id", 0), body=names, flag="end")
         else:
             continue
         out.append(s)
